@@ -57,6 +57,127 @@ def dumps_corr(ctx, progs):
             ctx.traces += 1
 
 
+def _collapse(toks):
+    """drop line-end multiplicity: runs of NEWLINE become one, none at either end"""
+    out = []
+    for t in toks:
+        if t[0] == "NEWLINE":
+            if out and out[-1][0] != "NEWLINE":
+                out.append(("NEWLINE", "\n"))
+        else:
+            out.append(t)
+    while out and out[-1][0] == "NEWLINE":
+        out.pop()
+    return out
+
+
+def _lines(toks):
+    out = [[]]
+    for t in toks:
+        if t[0] == "NEWLINE":
+            out.append([])
+        else:
+            out[-1].append(t)
+    return out
+
+
+_CPLX = None
+
+
+def _num_equal(kind, model_text, real_text):
+    """model number tokens carry bit patterns (f<bits>); compare with what CPython printed"""
+    import re
+    import struct
+
+    def bits(s):
+        return struct.unpack("<d", struct.pack("<Q", int(s)))[0]
+    if kind == "FLOAT":
+        if not model_text.startswith("f"):
+            return model_text == real_text          # the version number
+        return bits(model_text[1:]) == float(real_text)
+    m = re.fullmatch(r"(-?)f(\d+)([+-])f(\d+)j", model_text)
+    if not m:
+        return False
+    re_ = bits(m.group(2)) * (-1 if m.group(1) else 1)
+    im_ = bits(m.group(4)) * (-1 if m.group(3) == "-" else 1)
+    try:
+        c = complex(real_text.replace("J", "j"))
+    except ValueError:
+        return False
+    return c.real == re_ and c.imag == im_
+
+
+def unparse_corr(ctx, progs):
+    """the script tree the model says the serialiser writes (scriptOf, the object of the C01/C09
+    theorems) vs the shipped lexer's tokens of the real dumps text; lines with symbolic arguments
+    are compared on operation name and modes only (SymPy chooses the brackets)"""
+    import blackbird
+    lines = []
+    idx = []
+    for k, p in enumerate(progs):
+        try:
+            lines.append("UNPARSE\t" + sx.hexs(enc.enc_program(p)))
+            idx.append(k)
+        except enc.Unsupported:
+            ctx.ood += 1
+    outs = core.model_batch(lines)
+    nsym = 0
+    for k, o in zip(idx, outs):
+        p = progs[k]
+        if o.startswith("(ood"):
+            ctx.ood += 1
+            continue
+        with core.quiet():
+            try:
+                text = blackbird.dumps(p)
+            except Exception:  # noqa: BLE001
+                continue
+        if o.startswith("(err"):
+            ctx.disagree("UNPARSE: model refuses (%s), implementation serialises" % o[:60],
+                         {"kind": "correspondence", "cmd": "UNPARSE", "impl_text": text})
+            continue
+        model = []
+        for x in o.split(" "):
+            parts = x.split(":")
+            if parts[0] == "EOF":
+                continue
+            model.append((parts[0], sx.unhex(parts[1])))
+        real = [(kk, tt) for (kk, tt, _l, _c) in core.real_tokens(text)[0]]
+        ml, rl = _lines(_collapse(model)), _lines(_collapse(real))
+        bad = None
+        if len(ml) != len(rl):
+            bad = "%d lines vs %d" % (len(ml), len(rl))
+        else:
+            for a, b in zip(ml, rl):
+                symbolic = any(t[0] in ("LBRACE", "REGREF") for t in a + b)
+                if symbolic:
+                    nsym += 1
+                    cut = lambda l: [l[0]] + l[max(i for i, t in enumerate(l) if t[0] == "APPLY"):] if any(t[0] == "APPLY" for t in l) else l[:1]
+                    a, b = cut(a), cut(b)
+                if len(a) != len(b):
+                    bad = "line %r vs %r" % (" ".join(t[1] for t in a), " ".join(t[1] for t in b))
+                    break
+                for (ka, ta), (kb, tb) in zip(a, b):
+                    if ka != kb:
+                        bad = "token kind %s %r vs %s %r" % (ka, ta, kb, tb)
+                        break
+                    if ka in ("FLOAT", "COMPLEX"):
+                        if not _num_equal(ka, ta, tb):
+                            bad = "number %r vs %r" % (ta, tb)
+                            break
+                    elif ta != tb:
+                        bad = "token text %r vs %r" % (ta, tb)
+                        break
+                if bad:
+                    break
+        if bad:
+            ctx.disagree("UNPARSE: " + bad, {"kind": "correspondence", "cmd": "UNPARSE", "impl_text": text})
+        else:
+            ctx.traces += 1
+    ctx.extra["unparse_symbolic_lines_compared_on_name_and_modes"] = ctx.extra.get(
+        "unparse_symbolic_lines_compared_on_name_and_modes", 0) + nsym
+
+
 def gen_case(rng, i):
     r = i % 4
     if r == 0:
@@ -134,4 +255,5 @@ def run(ctx):
         with core.quiet():
             texts2.append(blackbird.dumps(obj))
     dumps_corr(ctx, progs)
+    unparse_corr(ctx, progs)
     common.loads_corr(ctx, texts2, "LOADS(dumps)", loose=True)
